@@ -142,3 +142,23 @@ pub fn pivot_near(ctx: &mut Ctx, p: f64) -> f64 {
         p
     }
 }
+
+/// the forced (exact-grid) argument if one is set, else the generated one
+pub fn forced_or(ctx: &mut Ctx, x: Dd) -> Dd {
+    match ctx.forced {
+        Some((hi, lo)) => {
+            ctx.labels.retain(|l| !l.starts_with("arg:"));
+            ctx.label("arg:exact-grid");
+            Dd::new(hi, lo)
+        }
+        None => x,
+    }
+}
+
+/// i -> +-(i/2)/den, zero low word; sets it as the forced argument
+pub fn force_grid(ctx: &mut Ctx, den: f64, positive_only: bool) -> u64 {
+    let i = ctx.word();
+    let hi = if positive_only { (i + 1) as f64 / den } else if i & 1 == 1 { -(((i >> 1) + 1) as f64) / den } else { ((i >> 1) + 1) as f64 / den };
+    ctx.forced = Some((hi, 0.0));
+    i
+}
